@@ -204,7 +204,7 @@ Section Model.
     | Err e => Err e
     | Panic => Panic
     end.
-  Definition resolve_txt := resolve_with key_value_old. (* TEMP-OLD *)
+  Definition resolve_txt := resolve_with key_value.
   Definition resolve_txt_old := resolve_with key_value_old.
 
   (* to_pkarr_signed_packet, then from_pkarr_signed_packet: the DNS layer hands
@@ -216,7 +216,7 @@ Section Model.
     | Err e => Err e
     | Panic => Panic
     end.
-  Definition resolve_pkt := resolve_pkt_with key_value_old. (* TEMP-OLD *)
+  Definition resolve_pkt := resolve_pkt_with key_value.
 
   Definition info_eqb (x y : info) : bool :=
     bytes_eqb (eid x) (eid y) && list_eqb addr_eqb (addrs x) (addrs y) && opt_eqb bytes_eqb (udata x) (udata y).
@@ -260,6 +260,7 @@ Fixpoint lookup (o : oracle) (s : bytes) : option (option bytes * option bytes) 
   | [] => None
   | (k, u, a) :: r => if bytes_eqb k s then Some (u, a) else lookup r s
   end.
+Definition oe (s : bytes) (u a : option bytes) : bytes * option bytes * option bytes := (s, u, a).
 Definition o_parse_url (o : oracle) (s : bytes) : option bytes :=
   match lookup o s with Some (u, _) => u | None => None end.
 Definition o_parse_sock (o : oracle) (s : bytes) : option bytes :=
@@ -337,9 +338,9 @@ Definition is_custom (a : caddr) : bool := match a with Custom _ _ => true | _ =
    6 packet too large / 5 some value contains '=' / 3 has a custom address / 2 has user data /
    1 addresses only / 0 empty info *)
 Definition tag (i : input) : N :=
-  if negb (hyp_holds i) then 9 else
   match mk_user_data (in_ud i) with
   | Ok ud =>
+      if negb (hyp_holds i) then 9 else
       let inf := mkInfo (in_id i) (in_addrs i) ud in
       let a := c_to_attrs inf in
       match encode_packet (to_txt_strings a) with
